@@ -4,7 +4,7 @@
 (* recorded Parse() result is judged against KParse.  IOEnv.KV_RULES        *)
 (* selects the property whose rules are evaluated.                          *)
 (***************************************************************************)
-EXTENDS KParse, Json, IOUtils
+EXTENDS KParse, KPrint, Json, IOUtils
 
 VARIABLES l, sh
 Trace == ndJsonDeserialize(IOEnv.KV_TRACE)
@@ -22,8 +22,9 @@ Next == \/ /\ l = 0 /\ sh = 0
 AllRules == {"C01.Accept", "C01.Reject", "C01.Data",
              "C06.NoPanic", "C06.Shape", "C06.CmdNoPanic",
              "C07.ParEqual",
-             "C08.Lossless", "C08.Blocks",
-             "C10.NoPanic", "C10.ErrShape", "C10.Order", "C10.FirstLine"}
+             "C08.Lossless", "C08.Blocks", "C08.NoOp",
+             "C09.Accepted", "C09.SameRecords", "C09.FixedPoint", "C09.Layout", "C09.Exact",
+             "C10.NoPanic", "C10.ErrShape", "C10.Order", "C10.FirstLine", "C10.Term", "C10.Json"}
 RuleNames == {r \in AllRules : Sel = "ALL" \/ StartsWith(r, Sel)}
 
 EntryTotal(e) == IF e.kind = "dur" THEN e.a ELSE IF e.kind = "range" THEN e.b - e.a ELSE 0
@@ -45,6 +46,46 @@ BlockMatches(ob, b, ls) ==
     /\ Len(ob.lines) = b.last - b.first + 1
     /\ \A i \in 1..Len(ob.lines) : ob.lines[i] = <<ls[b.first + i - 1].text, ls[b.first + i - 1].eol>>
 
+RECURSIVE RepeatN(_, _)
+RepeatN(c, n) == IF n <= 0 THEN "" ELSE c \o RepeatN(c, n - 1)
+RECURSIVE TabToSpace(_)
+TabToSpace(t) == IF t = "" THEN "" ELSE (IF Ch(t, 1) = TAB THEN SP ELSE Ch(t, 1)) \o TabToSpace(Drop(t, 1))
+IsErrHeader(x) == StartsWith(x.text, "[SYNTAX ERROR] in line ")
+
+(* the terminal report shows, for every error in order: line number and file, the quoted line, the carets *)
+TermOK(o) ==
+    LET tl == SplitLines(o.print_err)
+        idx == SelectSeq([i \in 1..Len(tl) |-> i], LAMBDA i : IsErrHeader(tl[i]))
+    IN  /\ Len(idx) >= Len(o.errors)
+        /\ \A i \in 1..Len(o.errors) :
+              LET e == o.errors[i]  h == idx[i] IN
+              /\ tl[h].text = "[SYNTAX ERROR] in line " \o NatStr(e.line) \o " of file " \o o.file
+              /\ h + 2 <= Len(tl)
+              /\ tl[h + 1].text = "    " \o TabToSpace(e.text)
+              /\ tl[h + 2].text = "    " \o RepeatN(SP, e.pos) \o RepeatN("^", e.len)
+
+JsonErrOK(o) ==
+    /\ o.json_wellformed /\ o.json_pretty_wellformed
+    /\ o.json = o.json_pretty
+    /\ o.json_records_null /\ ~o.json_errors_null
+    /\ Len(o.json.errors) = Len(o.errors)
+    /\ \A i \in 1..Len(o.errors) :
+          LET e == o.errors[i]  j == o.json.errors[i] IN
+          j.line = e.line /\ j.column = e.pos + 1 /\ j.length = e.len /\ j.title = e.title /\ j.file = o.file
+
+(* canonical layout of printed output: LF only, headlines unindented, entries 4 and continuation  *)
+(* lines 8 spaces, exactly one empty line between records, one leading and one trailing empty line *)
+LayoutOK(out) ==
+    LET tl == SplitLines(out) IN
+    /\ \A i \in 1..Len(tl) : tl[i].eol = LF
+    /\ Len(tl) >= 3 /\ tl[1].text = "" /\ tl[Len(tl)].text = "" /\ tl[2].text # ""
+    /\ \A i \in 2..(Len(tl) - 1) :
+          LET t == tl[i].text IN
+          /\ t = "" => tl[i + 1].text # "" /\ ~IsSpaceOrTab(Ch(tl[i + 1].text, 1))
+          /\ t # "" /\ IsSpaceOrTab(Ch(t, 1)) =>
+                \/ (StartsWith(t, "    ") /\ Len(t) > 4 /\ ~IsSpaceOrTab(Ch(t, 5)))
+                \/ (StartsWith(t, "        ") /\ Len(t) > 8)
+
 Holds(r, ev, P) ==
     LET c == ev.case  o == ev.obs  live == ev.panic = "" IN
     CASE r = "C01.Accept" -> live /\ P.status = "Conforming" => o.ok
@@ -64,6 +105,26 @@ Holds(r, ev, P) ==
       [] r = "C08.Blocks" -> live /\ o.ok =>
             /\ Len(o.blocks) = Len(P.blocks)
             /\ \A k \in 1..Len(P.blocks) : BlockMatches(o.blocks[k], P.blocks[k], P.lines)
+      [] r = "C08.NoOp" -> live /\ c.kind = "view" /\ o.ok /\ o.records # <<>> => o.noop_ran /\ o.noop = c.text
+      [] r = "C09.Accepted" -> live /\ c.kind = "view" /\ o.ok /\ o.records # <<>> =>
+            o.print_code = 0 /\ o.reparsed.ok
+      [] r = "C09.SameRecords" -> live /\ c.kind = "view" /\ o.ok /\ o.records # <<>> /\ o.reparsed.ok =>
+            /\ Len(o.reparsed.records) = Len(o.records)
+            /\ \A k \in 1..Len(o.records) :
+                  LET a == o.records[k]  b == o.reparsed.records[k] IN
+                  /\ a.date = b.date /\ a.should = b.should /\ a.summary = b.summary
+                  /\ Len(a.entries) = Len(b.entries)
+                  /\ \A i \in 1..Len(a.entries) :
+                        LET x == a.entries[i]  y == b.entries[i] IN
+                        x.kind = y.kind /\ x.a = y.a /\ x.b = y.b /\ x.canon = y.canon /\ x.summary = y.summary
+      [] r = "C09.FixedPoint" -> live /\ c.kind = "view" /\ o.ok /\ o.records # <<>> => o.print2 = o.print
+      [] r = "C09.Layout" -> live /\ c.kind = "view" /\ o.ok /\ o.records # <<>> => LayoutOK(o.print)
+      [] r = "C09.Exact" -> live /\ c.kind = "view" /\ o.ok /\ P.status = "Conforming" /\ P.recs # <<>> =>
+            \/ \E k \in 1..Len(P.recs) : \E i \in 1..Len(P.recs[k].entries) : P.recs[k].entries[i].loose
+            \/ o.print = LF \o PrintDoc(DocData(P)) \o LF
+      [] r = "C10.Term" -> live /\ c.kind = "view" /\ ~o.ok /\ (\A i \in 1..Len(o.errors) : o.errors[i].text_panic = "") =>
+            o.print_code # 0 /\ TermOK(o)
+      [] r = "C10.Json" -> live /\ c.kind = "view" /\ ~o.ok => o.json_code = 0 /\ JsonErrOK(o)
       [] r = "C10.NoPanic" -> ev.panic = "" /\ \A i \in 1..Len(o.errors) : o.errors[i].text_panic = ""
       [] r = "C10.ErrShape" -> live /\ ~o.ok =>
             \A i \in 1..Len(o.errors) :
